@@ -193,6 +193,13 @@ func (x *Exec) loopEffects(fr *Frame, h *ssa.BasicBlock) (allocs map[*ssa.Alloc]
 				r := rootAddr(in.Addr)
 				if a, ok := r.(*ssa.Alloc); ok {
 					allocs[a] = true
+				} else if u, ok := r.(*ssa.UnOp); ok && isSliceElemStore(in.Addr) {
+					// element store into a slice held in a local variable
+					if a, ok := rootAddr(u.X).(*ssa.Alloc); ok {
+						allocs[a] = true
+					} else {
+						heap = true
+					}
 				} else {
 					heap = true
 				}
@@ -211,12 +218,17 @@ func (x *Exec) loopEffects(fr *Frame, h *ssa.BasicBlock) (allocs map[*ssa.Alloc]
 					}
 					continue
 				}
-				calls = true
 				for _, a := range in.Call.Args {
 					if al, ok := rootAddr(a).(*ssa.Alloc); ok {
 						allocs[al] = true
 					}
 				}
+				if !in.Call.IsInvoke() {
+					if callee, ok := in.Call.Value.(*ssa.Function); ok && x.calleeEffectFree(callee) {
+						continue
+					}
+				}
+				calls = true
 			case *ssa.Defer, *ssa.Go:
 				calls = true
 			case *ssa.MakeClosure:
@@ -271,9 +283,19 @@ func (x *Exec) loopEntry(fr *Frame, st *State, h *ssa.BasicBlock, ord int) bool 
 	for a := range allocs {
 		pv, ok := fr.vals[a]
 		if !ok || pv.Loc == nil || pv.Loc.Kind != LCell {
-			if ok && pv.Loc == nil {
-				// heap-allocated struct local: havoc its fields via heap havoc
-				heap = true
+			if ok && pv.Loc == nil && !pv.T.IsZero() {
+				// heap-allocated struct local: only its own fields change
+				T := a.Type().(*types.Pointer).Elem()
+				if _, isStruct := T.Underlying().(*types.Struct); isStruct {
+					si := x.te.Struct(T)
+					for i := range si.Acc {
+						key, sort := x.fieldComp(si, i)
+						cur := x.heapGet(st, key, sort)
+						st.heap[key] = Store(cur, pv.T, x.d.Fresh("loop_fld", si.FSorts[i]))
+					}
+				} else {
+					heap = true
+				}
 			}
 			continue
 		}
@@ -286,6 +308,12 @@ func (x *Exec) loopEntry(fr *Frame, st *State, h *ssa.BasicBlock, ord int) bool 
 		names = append(names, cell.name)
 	}
 	sort.Strings(names)
+	// ghost contents of string builders written in the loop
+	for k := range st.ghost {
+		if strings.HasPrefix(k, "sb:") {
+			st.ghost[k] = x.d.Fresh("loop_sb", "String")
+		}
+	}
 	if calls {
 		x.havocHeap(st, "loop body calls")
 		st.callsUnknown = true
@@ -539,4 +567,42 @@ func (x *Exec) outerGhost(st *State, name string) (Val, bool) {
 		}
 	}
 	return Val{}, false
+}
+
+func isSliceElemStore(addr ssa.Value) bool {
+	ia, ok := addr.(*ssa.IndexAddr)
+	if !ok {
+		return false
+	}
+	_, isSlice := ia.X.Type().Underlying().(*types.Slice)
+	return isSlice
+}
+
+// calleeEffectFree: a static callee that cannot change the heap as seen by
+// the verified function (library table / side-effect-free packages, repo
+// functions whose contract says `modifies nothing`, or a syntactic check).
+func (x *Exec) calleeEffectFree(f *ssa.Function) bool {
+	name := f.String()
+	if o := f.Origin(); o != nil {
+		name = o.String()
+	}
+	if _, ok := libTable[name]; ok {
+		switch name {
+		case "slices.SortFunc", "slices.Sort", "errors.As":
+			return true // effects are on local variables passed by value/address, handled as cell stores
+		}
+		return !strings.HasPrefix(name, "(*sync.")
+	}
+	if x.L.isRepoFunc(f) {
+		if ctr := x.contractFor(f); ctr != nil {
+			if ctr.Pure || (ctr.HasMod && len(ctr.Modifies) == 1 && ctr.Modifies[0] == "nothing") {
+				return true
+			}
+			if ctr.HasMod {
+				return false
+			}
+		}
+		return x.L.noHeapEffects(f, 0)
+	}
+	return isPurePackage(f) && !nondetPkgs[FuncPkgPath(f)]
 }
